@@ -421,6 +421,9 @@ pub struct Round {
 /// fee marker: the amount of routing work half-way between what the tip requires at the round's offset and what the
 /// highest block of the failed fork would require (set by the episode; the plan is skipped when there is no such gap)
 pub const AUTO_FEE: u64 = u64::MAX;
+/// `episode.0 >= REORG_EPISODE`: the variant in which the fork is honest and heavier and both nodes reorganise onto it
+/// (T comes `episode.0 - REORG_EPISODE` ms after its parent)
+pub const REORG_EPISODE: u64 = 1_000_000;
 #[derive(Clone, Debug)]
 pub struct Scenario {
     pub name: String,
@@ -623,6 +626,17 @@ pub fn failed_fork_family() -> Vec<Scenario> {
                 k += 1;
             }
         }
+    }
+    // the reorganisation that succeeds: production goes on on the fork, T's transaction is back in the pools
+    for (j, (at, b, dt)) in [(2 * HB + 1, 5_000u64, 2 * HB + 1), (2 * HB + 1, 5_000, 9_000), (3 * HB, 6_000, 2 * HB - 1), (2 * HB + 1, 4_000, 6_000), (5 * HB, 5_000, 2 * HB + 1), (2 * HB + 1, 7_000, 12_000)].iter().enumerate() {
+        let p = j % 2;
+        let mut rounds = vec![];
+        rounds.push(Round { producer: p, gt: true, dt: far, txs: vec![plain(0, 10, 0)], privileged: Priv::None, episode: None });
+        rounds.push(Round { producer: 1 - p, gt: true, dt: far, txs: vec![plain(1, 10, 0)], privileged: Priv::None, episode: None });
+        rounds.push(Round { producer: p, gt: j % 3 != 1, dt: *dt, txs: vec![plain(3, 60_000, 1)], privileged: Priv::None, episode: Some((REORG_EPISODE + at, *b, *b)) });
+        rounds.push(Round { producer: 1 - p, gt: true, dt: far, txs: vec![plain(0, 10, 1)], privileged: Priv::None, episode: None });
+        rounds.push(Round { producer: p, gt: true, dt: far, txs: vec![], privileged: Priv::None, episode: None });
+        v.push(Scenario { name: format!("reorg-then-produce-{}", j), gp: 8, issue: default_issue(None), rounds, prune_after: 50, target: 0, stake: 0 });
     }
     v
 }
@@ -992,6 +1006,7 @@ pub async fn run_scenario(sc: &Scenario, seed: u64, e: &mut Emit<'_>) -> Report 
         w.auto_fee = None;
         if let Some((a, b1, b2)) = rd.episode {
             match failed_fork_episode(&mut w, sc, rd, a, b1, b2).await {
+                Ok(_) if a >= REORG_EPISODE => (e.count)("episode:reorg-onto-heavier-fork:done"),
                 Ok(gap) => {
                     (e.count)("episode:failed-fork:done");
                     (e.count)(if gap { "episode:failed-fork:work-gap" } else { "episode:failed-fork:no-work-gap" });
@@ -1351,9 +1366,10 @@ async fn failed_fork_episode(w: &mut World, sc: &Scenario, rd: &Round, a: u64, b
     let other_key = if rd.producer == 0 { KEY_B } else { KEY_A };
     // T: the other node's block, `a` ms after P, carrying the work that needs
     let mut used = pooled.clone();
-    let nt = needed(pb.burnfee, pb.timestamp + a, pb.timestamp);
+    let at = a % REORG_EPISODE;
+    let nt = needed(pb.burnfee, pb.timestamp + at, pb.timestamp);
     let tt = build_tx(w, &routed(2, nt + nt / 10 + 10), &mut used, other_key, 0, next_id, sc.gp, 231).ok_or("payer-cannot-pay-for-T")?;
-    let t = create_with(&w.nodes[0], pb.hash, pb.timestamp + a, other_key, vec![tt]).await.map_err(|_| "create-T-failed")?;
+    let t = create_with(&w.nodes[0], pb.hash, pb.timestamp + at, other_key, vec![tt]).await.map_err(|_| "create-T-failed")?;
     if deliver_both(w, &t).await != ["added_lc", "added_lc"] {
         return Err("T-not-adopted");
     }
@@ -1369,11 +1385,24 @@ async fn failed_fork_episode(w: &mut World, sc: &Scenario, rd: &Round, a: u64, b
     let n2 = needed(f1.burnfee, f1.timestamp + b2, f1.timestamp);
     let t2 = build_fork_tx(w, &pb, 1, n2 + n2 / 10 + 10, &mut used_f, 233).ok_or("payer-cannot-pay-for-F2")?;
     let f2 = create_with(&w.nodes[0], f1.hash, f1.timestamp + b2, IDLE, vec![t2]).await.map_err(|_| "create-F2-failed")?;
-    if (f1.burnfee as u128) + (f2.burnfee as u128) >= t.burnfee as u128 {
+    if a < REORG_EPISODE && (f1.burnfee as u128) + (f2.burnfee as u128) >= t.burnfee as u128 {
         return Err("fork-not-lighter-than-T");
     }
-    if deliver_both(w, &f2).await != ["added_side", "added_side"] {
+    if a >= REORG_EPISODE && (f1.burnfee as u128) + (f2.burnfee as u128) < t.burnfee as u128 {
+        return Err("fork-not-heavier-than-T");
+    }
+    if a < REORG_EPISODE && deliver_both(w, &f2).await != ["added_side", "added_side"] {
         return Err("F2-not-a-side-block");
+    }
+    if a >= REORG_EPISODE {
+        // variant: T came late (light), the honest fork is the heavier chain: both nodes reorganise onto F2 and T's
+        // transaction goes back to the pools
+        if deliver_both(w, &f2).await != ["added_lc", "added_lc"] {
+            return Err("F2-not-adopted");
+        }
+        w.learn(&f1);
+        w.learn(&f2);
+        return Ok(false);
     }
     let t3 = build_fork_tx(w, &pb, 2, 10, &mut used_f, 234).ok_or("payer-cannot-pay-for-F3")?;
     let mut f3 = create_with(&w.nodes[0], f2.hash, f2.timestamp + 2 * HB + 1, IDLE, vec![t3]).await.map_err(|_| "create-F3-failed")?;
